@@ -83,6 +83,15 @@ var c15Examples = []string{
 	`.Individuals | .AllEvents | Length`,
 	`.Sources | .Title`,
 	`.Places`,
+	`.Individuals | .Spouses`,
+	`.Individuals | .Spouses | .Name | .String`,
+	`.Individuals | .Parents`,
+	`.Individuals | .Families | .Children`,
+	`.Families | .Wife | .Individual`,
+	`.Families | .Children | .Individual | .Name`,
+	`.Individuals | .SpouseChildren`,
+	`.Individuals | .AllEvents`,
+	`.Individuals | .UniqueIdentifiers`,
 }
 
 // accessor universe discovered by reflection
@@ -276,9 +285,21 @@ type c15Docs struct {
 func c15MakeDocs(r *fw.Rand) c15Docs {
 	g := gen.NewFG(r, gen.FGOpts{People: r.Range(3, 12), MultiNames: true, MissingBits: true, WithUIDs: true, WithSources: true})
 	g2 := gen.NewFG(r, gen.FGOpts{People: r.Range(1, 6), PtrPrefix: "J"})
+	// a document with structural faults (dangling and wrong-kind references,
+	// people without a name, empty values...): accessors then yield nil
+	// elements inside lists, which every stage and formatter has to survive
+	g3 := gen.NewFG(r, gen.FGOpts{People: r.Range(3, 10), MultiNames: true, WithSources: true})
+	recs := g3.Specs()
+	for k := r.Range(2, 4); k > 0; k-- {
+		recs = c14Faults[r.Intn(len(c14Faults))].apply(r, recs)
+	}
+	faulty := gen.Text(recs)
+	if _, err := gedcom.NewDocumentFromString(faulty); err != nil {
+		faulty = g3.Text()
+	}
 	return c15Docs{
-		texts: []string{"", "0 @I1@ INDI\n1 NAME John /Smith/\n1 BIRT\n2 DATE 3 Sep 1943\n", g.Text(), g2.Text()},
-		names: []string{"empty", "tiny", "family-graph", "second"},
+		texts: []string{"", "0 @I1@ INDI\n1 NAME John /Smith/\n1 BIRT\n2 DATE 3 Sep 1943\n", g.Text(), g2.Text(), faulty},
+		names: []string{"empty", "tiny", "family-graph", "second", "with-structural-faults"},
 	}
 }
 
@@ -369,7 +390,7 @@ func init() {
 		},
 		Run:   c15Run,
 		Batch: func(tier string, n int) int { return 8 },
-		Rule: "every query goes through ParseString -> Evaluate (1 and 2 freshly decoded documents: empty, one person, generated family graph) -> all five formatters into a buffer, under recover() with panic classification; stack overflows and other process-fatal crashes and hangs are attributed by the supervisor through the case marker. " +
+		Rule: "every query goes through ParseString -> Evaluate (1 and 2 freshly decoded documents: empty, one person, generated family graph, a family graph with 2-4 structural faults such as dangling spouse references and nameless people) -> all five formatters into a buffer, under recover() with panic classification; stack overflows and other process-fatal crashes and hangs are attributed by the supervisor through the case marker. " +
 			"queries: (a) exhaustive token sequences up to length 3 (quick) / 4 (thorough) over a 27-token alphabet (incl. an unbalanced quote), (b) well-formed pipelines of depth <= 3 generated over all accessors found by reflection (methods with arguments included) and all built-in functions with 0..3 arguments, with defined/undefined/self-referential/mutually recursive variables (also referring to themselves inside the arguments of Only, First, Last, Combine and inside object fields), (c) token-mutated documented examples, (d) random bytes, (e) a sample through the real 'gedcom query' binary in every format. non-trivial = query parsed and evaluated to a value; distinct by query text + documents",
 		Floors: func(a *fw.Agg, tier string) []string {
 			var f []string
@@ -392,7 +413,7 @@ func c15Run(c *fw.Ctx, i int) {
 	if i < nBlocks {
 		for idx := i * c15Block; idx < (i+1)*c15Block && idx < nSeq; idx++ {
 			qs := strings.Join(c15Seq(idx), " ")
-			for _, sel := range [][]int{{0}, {1}, {2, 3}} {
+			for _, sel := range [][]int{{0}, {1}, {2, 3}, {4}} {
 				c15Eval(c, qs, d, sel, "token-sequence")
 			}
 		}
@@ -422,7 +443,7 @@ func c15Run(c *fw.Ctx, i int) {
 			}
 			qs, kind = string(b), "random-bytes"
 		}
-		sel := [][]int{{2}, {2, 3}, {0}, {1}, {0, 2}}[r.Intn(5)]
+		sel := [][]int{{2}, {2, 3}, {0}, {1}, {0, 2}, {4}, {4}, {4, 2}}[r.Intn(8)]
 		c15Eval(c, qs, d, sel, kind)
 		if k == 7 {
 			c15CLI(c, qs, d, sel)
